@@ -368,6 +368,17 @@ def run(prog: Program, chk: Check):
              f"to_dict/to_json keys differ from the keys from_json reads {read_keys}: " + "; ".join(f"{k} emits {sorted(v)}" for k, v in ek.items()))
     chk.units.update({"copy_methods": ncopy, "encoder_cases": te, "decoder_cases": td})
 
+    # the version test is only as good as the decoded value: with validation off the Uint32 `reserved` field wraps modulo 2**32
+    # (2**32 -> 0 = "unchecked", hash + 2**32 -> the local hash), so the header must be decoded with validation in force
+    wv = [w for w in walk_local(fj.node) if isinstance(w, ast.With) and any(isinstance(it.context_expr, ast.Call) and norm(it.context_expr.func).split(".")[-1] == "disable_message_validation"
+                                                                         and not any(k.arg == "ignore" and isinstance(k.value, ast.Constant) and k.value.value is True for k in it.context_expr.keywords)
+                                                                         for it in w.items)]
+    hdec = [c for c in calls_in(fj.node) if is_method_call(c, ("from_dict", "from_json")) and c.args and "'header'" in norm(c.args[0]).replace('"', "'")]
+    inside = [c for c in hdec if any(any(x is c for x in ast.walk(w)) for w in wv)]
+    V.decide(bool(hdec) and not inside, fkey(fj, "header-decoded-with-validation"), where(fj), "the header (its version field) is decoded with field validation in force",
+             "Message.from_json decodes the header inside disable_message_validation(): an out-of-range version wraps modulo 2**32 on assignment, so a foreign version "
+             "congruent to 0 or to the local hash passes the version test")
+
     # ---- D the whole-array validator accepts exactly the values the element validator accepts ---------------------
     # _from_dict assigns arrays whole; what a message can hold was put there through the element / scalar validator.  If
     # validate_many refuses a value validate_one accepts (NaN under `not all(isfinite)`), such a message no longer decodes.
